@@ -49,12 +49,12 @@ Qed.
 (** ... and its three-valued value on every row is PySpark's value of the user's tree *)
 Theorem c05_value : forall t, in_class c t = true ->
   exists e, reparse (print (build c t)) = ROk e [] /\ strip e = denote t /\ known e = true /\
-            forall en, udom en t = true -> seval en e = ueval en t.
+            forall en, udom en t = true -> agree en t = true -> seval en e = ueval en t.
 Proof.
   intros t Hc. destruct (c05_roundtrip t Hc) as [R S].
   exists (build c t). split; [exact R|]. split; [exact S|].
   split; [apply (proj1 build_known_mut); exact Hc|].
-  intros en Hd. rewrite <- (proj1 seval_strip). rewrite S. apply (proj1 value_mut). exact Hd.
+  intros en Hd Ha. rewrite <- (proj1 seval_strip). rewrite S. apply (proj1 value_mut); assumption.
 Qed.
 
 End WithCfg.
